@@ -193,6 +193,12 @@ def check(run: Run) -> None:
             if not (isinstance(v, ast.Name) and truthy):
                 continue
             defs = [d for _st, d in _assignments(rv, v.id)]
+            # the same thing read in place (the helper inlined, or written out): V is bound to an empty literal or, under the
+            # guard, to the real list - so a truthy V means the guard was passed
+            pairs = list(_assignments(rv, v.id))
+            nonempty = [(stn, d) for stn, d in pairs if not (isinstance(d, (ast.List, ast.Tuple)) and not d.elts) and not (isinstance(d, ast.Constant) and not d.value)]
+            if len(pairs) >= 2 and nonempty and all(any(need[name](t2, v2) for x in cfg.node_for_stmt_containing(stn) for t2, v2 in atomic_conditions(cfg, x)) for stn, _d in nonempty):
+                return True
             if len(defs) != 1 or not (isinstance(defs[0], ast.Call) and isinstance(defs[0].func, ast.Name) and mod.has_func(defs[0].func.id)):
                 continue
             call = defs[0]
